@@ -34,8 +34,9 @@ def lengths(tier):
     for k in ks:
         for d in (range(-17, 18) if k == 1 or (tier == "thorough" and k == 2) else (-17, -16, -15, -1, 0, 1, 15, 16, 17)):
             ls.add(65536 * k + d)
+    ls |= {1048576 + 17}          # the first block beyond what segment addresses reach
     if tier == "thorough":
-        ls |= {1048576 - 1, 1048576, 1048576 + 1, 1048576 + 17}
+        ls |= {1048576 - 1, 1048576, 1048576 + 1, 1048576 + 65536 - 1, 1048576 + 65536 + 3}
     return sorted(ls)
 
 
